@@ -69,6 +69,8 @@ ATOM_DOC = [
     ("offset_lt_n", "the 32-byte tweak was compared against n"),
     ("session_validated", "the MuSig2 session went through session_values (keys are points, tweaks in range, aggregate finite)"),
     ("fields_sized", "every byte-string field went through bytes_from_octets with its fixed size"),
+    ("signer_held", "the Signer object holds a bindings-side key (built under its own guard, while the bindings served)"),
+    ("pub_key_proved", "the pub_key argument, when given, was proved a point of the curve before the call"),
 ]
 ATOMS = [a for a, _ in ATOM_DOC]
 
@@ -146,7 +148,16 @@ SITES = [
          facts=[("if isinstance(sig, Sig):\n    sig.assert_valid()\nelse:\n    sig = Sig.parse(sig)", "sig_valid"),
                 ("msg_hash = bytes_from_octets(msg_hash, hf_len)", "msg_sized")],
          via=("_libsecp256k1_recover_point_",)),
+    Site("dsa_signer_init", dsa, "Signer.__init__",
+         atoms={"self._pub_key_sec is not None": ("ref", "dsa_signer_init__sec_from_pub_key")},
+         facts=[("self._q = scalar_from_prv_key(prv_key, ec)", "s1_in_1_n"), ("Q = mult(self._q, ec=ec)", "p1_on_curve")],
+         via=("_sec_from_pub_key",)),
+    Site("dsa_signer_sign", dsa, "Signer.sign_", atoms={"self._pub_key_sec is not None": "signer_held", "self._wiped": ("const", False)},
+         facts=[("msg_hash = bytes_from_octets(msg_hash, self._hf_len)", "msg_sized")], via=("_delegated_sign_",)),
     # ---- ecc/ssa.py
+    Site("ssa_signer_init", ssa, "Signer.__init__", facts=[("self._q = scalar_from_prv_key(prv_key, ec)", "s1_in_1_n")]),
+    Site("ssa_signer_sign", ssa, "Signer.sign_", atoms={"self._signer is None": ("not", "signer_held"), "self._wiped": ("const", False)},
+         via=("self._signer.sign_custom", "self._signer.sign")),
     Site("ssa_sign", ssa, "sign_", atoms={"commit_hash is None": "commit_is_none", "commit_hash is not None": ("const", False)},
          facts=[("q = scalar_from_prv_key(prv_key, ec)", "s1_in_1_n")]),
     Site("ssa_assert_as_valid", ssa, "assert_as_valid_", atoms={"isinstance(sig, Sig)": ("const", True)},
@@ -504,9 +515,9 @@ MODULES = [curve, sec_point, dsa, ssa, bms, dh, commit_nonce, ellswift, musig2, 
 # the site and has asked the predicate) or only build octets
 INSIDE = {
     "btclib.curves.curve": {"_libsecp256k1_multi_mult_", "_libsecp256k1_multi_mult"},
-    "btclib.ecc.dsa": {"_libsecp256k1_sign_", "_delegated_sign_", "_libsecp256k1_recover_sec_", "Signer.__init__", "Signer.wipe",
-                       "Signer.sign_"},
-    "btclib.ecc.ssa": {"Signer.__init__", "Signer.sign_", "Signer.wipe"},
+    # `Signer.wipe` only overwrites the buffer the constructor allocated: no arithmetic crosses
+    "btclib.ecc.dsa": {"_libsecp256k1_sign_", "_delegated_sign_", "_libsecp256k1_recover_sec_", "Signer.wipe"},
+    "btclib.ecc.ssa": {"Signer.wipe"},
     "btclib.ecc.musig2": {"_bindings_session"},
     "btclib.silent_payments": {"_delegated_output_keys"},
 }
@@ -606,6 +617,17 @@ def guards_text():
     t += "def SiteId.guard : SiteId → Atoms → Bool\n" + "".join(f"  | .{nm} => _root_.Gen.BackendSites.{nm}\n" for nm, _b, _c in rows) + "\n"
     t += "def SiteId.established : SiteId → Atoms → Bool\n" + "".join(f"  | .{nm} => _root_.Gen.BackendSites.{nm}.established\n" for nm, _b, _c in rows) + "\n"
     t += "def SiteId.catches : SiteId → Bool\n" + "".join(f"  | .{nm} => _root_.Gen.BackendSites.{nm}.catches\n" for nm, _b, _c in rows) + "\n"
+    # sites whose dispatch reads the caller's curve (the predicate is asked with `ec` / `sig.ec`, not the literal secp256k1)
+    guards = {nm: g for _s, (nm, g, _c, _e, _cal, _l) in order}
+
+    def takes_ec(nm, depth=0):
+        g = guards[nm]
+        if "x.ec_is_secp256k1" in g:
+            return True
+        return depth < 3 and any(other != nm and (other + " x") in g and takes_ec(other, depth + 1) for other in guards)
+    t += "/-- the dispatch is asked about the CALLER's curve (`_libsecp256k1_serves(ec, …)`), not the literal secp256k1 -/\n"
+    t += "def SiteId.takesEc : SiteId → Bool\n" + "".join(
+        f"  | .{nm} => {'true' if takes_ec(nm) else 'false'}\n" for nm, _b, _c in rows) + "\n"
     t += "def SiteId.ofName (n : String) : Option SiteId := SiteId.all.find? (fun s => s.name == n)\n\n"
     names = ", ".join(f"{nm}, {nm}.established, {nm}.catches" for nm, _b, _c in rows)
     t += "/-- unfold every generated guard / established / catches definition in the goal -/\n"
